@@ -679,8 +679,12 @@ def c13_oracle(op, impl):
     if t[0] == "o.key" and impl.startswith("ok idem=") and "ids=1" not in impl:
         return ("id changes across clone / serialise / parse", "%s/id/stable" % be)
     if t[0] == "txt.rt" and impl.startswith("ok"):
-        if len(unhex(impl.split(" ")[2])) != 33:
-            return ("id string with a decoded length other than 33 accepted", "%s/id/33" % be)
+        src = unhex(t[4]) if t[4] != "-" else b""
+        body = src.split(b".", 2)[2] if src.count(b".") >= 2 else b""
+        if len(body) != 44:
+            return ("id string with a decoded length other than 33 bytes accepted (payload of %d characters)" % len(body), "%s/id/33" % be)
+        if unhex(impl.split(" ")[1]) != src:
+            return ("accepted id string does not re-serialise to itself", "%s/id/text-roundtrip" % be)
     if t[0] == "id" and impl.startswith("ok"):
         # independent recomputation of the PASERK id
         import hashlib, base64
